@@ -11,6 +11,35 @@
     `TotalScorer sc`  the scorer returns exactly one score per plate it is given (any order)
     `PolicyFilters p` the policy returns a sub-list of the unobserved plates it was given
 -/
+/-
+  CLAUSE MAP (property text → theorems; model = `Model/Scores.lean`, `Model/ScorePipeline.lean`)
+
+  "the plates scored across all chunk indices are exactly the unobserved plates not already in the batch, each once"
+        → `C06_chunks_cover_once` (flatten over chunk indices = `candidates`, `Nodup`, membership characterised);
+          `C06_arraySplit_flatten`, `C06_arraySplit_balanced` (numpy's split); `C06_scoreInputs_succeeds` (the hypothesis
+          "every chunk call answers" holds for every well-formed screen, n ≥ 1, idx < n, batch empty or naming a plate)
+  "when a batch exists each candidate is scored on the union of its own and the batch plates' experiments reduced to one
+   experiment per distinct condition"
+        → `C06_conditioned_subset` (iff-characterisation of the selection), `C06_conditioned_unique`, `C06_conditioned_covers`;
+          `ScreenWF` is discharged for constructed / loaded screens by `C06_constructed_screen_wf`, `C06_loaded_screen_wf`
+  "scored": the scorer returns one score per plate handed over
+        → `C06_shipped_scorers_total` (RandomScorer, SizeScorer), `C06_dbal_scorer_total` (GaussianDBALScorer = C05's `scorerScore`),
+          `C06_total_scorer_holder` (holder of a chunk: the plates once, no zero-filled tail)
+  "after chunk results are saved, loaded and combined in any order"
+        → `C06_concat_perm_invariant` (multiset of cells invariant, = all cells of all files, in file order)
+  "the plate returned is unobserved, not in the batch and allowed by the policy" / "no other allowed plate has a strictly lower score"
+        → `C06_selection_correct` (pipeline), `C06_selection_sound_any_holder` (ANY holder), `C06_stale_scores_selection` (files of an
+          earlier batch), `C06_dbal_pipeline_correct` (the concrete composed pipeline); `PolicyFilters` is the contract of the plug-in
+          interface — for the shipped `KPerSamplePlatePolicy` it is `C16_subset` (Props/C16, own plate representation)
+  "nothing is returned only when no plate is allowed"
+        → `C06_none_iff_no_allowed`, `C06_none_iff_any_holder` (also: selection never raises under these hypotheses)
+  quantifier "with and without a policy", "-inf, ties", "n_chunks > plates": `Option Policy`, `Score.negInf`, no bound on `n` in any theorem
+  command line wrappers → `C06_cli_output`, `C06_cli_pipeline`
+  not a clause, proved because the code fixes it: tie-break = first minimal cell in file order → `C06_tie_break_first`
+  harness-only: h5py's round trip of two arrays and an attribute (container fidelity; modelled as a record), `Plate.plate_id` of
+        `screen.get_plate(x)` is `x` (object identity of plug-in arguments), float comparison `<` on binary64 for finite values and -inf is
+        represented exactly by `Score` (rationals), NaN scores are outside the quantifier.
+-/
 import Batchie.Lemmas.Scores
 import Batchie.Lemmas.ScreenWF
 import Batchie.Lemmas.ScorePipeline
@@ -594,6 +623,24 @@ theorem C06_dbal_pipeline_correct (num : Num α) (s : Screen) (thetas : List (Pr
 
 end
 
+/-- The tie-break, which the property leaves open and the code fixes: among the allowed cells of the combined holder (cells are in
+    FILE order, then in holder order inside a file: `C06_concat_perm_invariant`, last conjunct) the selected plate's cell has a
+    minimal score and every allowed cell BEFORE it has a strictly larger one — `np.argmin` returns the first minimum. -/
+theorem C06_tie_break_first (H : Holder) (hHw : HolderWF H) (s : Screen) (policy : Option Policy) (batch : List Int) (p : Int)
+    (hsel : selectNextPlate H s policy batch = .ok (some p)) :
+    let E := H.entries.filter (fun e => (eligible s policy batch).contains e.1)
+    ∃ (i : Nat) (sp : Score), E[i]? = some (p, sp) ∧ (∀ e ∈ E, e.2.lt sp = false) ∧
+      ∀ (j : Nat) (e : Int × Score), j < i → E[j]? = some e → sp.lt e.2 = true := by
+  unfold selectNextPlate at hsel
+  simp only at hsel
+  split at hsel
+  · cases hsel
+  · obtain ⟨best, hbest, hsel⟩ := bind_ok hsel
+    split at hsel
+    · cases hsel
+      exact plateIdWithMinimumScore_first H hHw (eligible s policy batch) p hbest
+    · cases hsel
+
 /-! ### the hypotheses are satisfiable (non-vacuity) -/
 
 /-- the chunk holders assumed by `C06_selection_correct` / `C06_none_iff_no_allowed` exist for every
@@ -648,5 +695,25 @@ example : ∀ i, i < 3 → ∃ h, scoreChunk exScreen 0 [] 3 i sizeScorer = .ok 
   C06_pipeline_exists exScreen ⟨rfl, rfl⟩ 0 [] 3 (fun _ => sizeScorer) (fun _ => C06_shipped_scorers_total.2.2.2) (Or.inl rfl)
 /-- `HolderWF` of a hand-written stale holder that still lists the batch plate 2 and the observed plate 0 -/
 example : HolderWF { size := 3, scores := [.negInf, .fin 1, .negInf], plateIds := [2, 1, 0], cur := 3 } := rfl
+
+/-- the hypothesis of `C06_tie_break_first` / `C06_selection_sound_any_holder` is satisfiable: this stale holder (it still lists the batch
+    plate 2 and the observed plate 0) makes `select_next_plate` return a plate -/
+example : ∃ p, selectNextPlate { size := 3, scores := [.negInf, .fin 1, .negInf], plateIds := [2, 1, 0], cur := 3 } exScreen none [2]
+    = .ok (some p) := by
+  have hpol : PolicyFilters none := fun f h => by cases h
+  have hcov : ∀ x, x ∈ eligible exScreen none [2] →
+      x ∈ (Holder.entries { size := 3, scores := [.negInf, .fin 1, .negInf], plateIds := [2, 1, 0], cur := 3 }).map Prod.fst := by
+    intro x hx
+    have hx' : x ∈ exScreen.pids := ((mem_candidates exScreen [2] x).mp hx).1
+    simp [exScreen] at hx'
+    rcases hx' with rfl | rfl | rfl <;> simp [Holder.entries]
+  obtain ⟨⟨r, hr⟩, hnone⟩ := C06_none_iff_any_holder
+    { size := 3, scores := [.negInf, .fin 1, .negInf], plateIds := [2, 1, 0], cur := 3 } (by simp [HolderWF]) exScreen none hpol [2] hcov
+  cases r with
+  | some p => exact ⟨p, hr⟩
+  | none =>
+    have h0 := hnone.mp hr
+    have h1 : (1 : Int) ∈ eligible exScreen none [2] := (mem_candidates exScreen [2] 1).mpr ⟨by decide, by decide, by decide⟩
+    rw [h0] at h1; cases h1
 
 end Batchie.Props.C06
